@@ -66,4 +66,24 @@ MG    == Mk(<<"o2", "o1">>, <<"s3", "s4">>, <<<<1, 0>>, <<2, 3>>>>, NoMd, SMD2, 
 \* count tables for subsampling / collapsing (non-negative integers, a zero vector, a single entry, totals = n)
 CT34  == Mk(O3, <<"s1", "s2", "s3", "s4">>, <<<<2, 0, 1, 0>>, <<0, 0, 3, 0>>, <<1, 0, 1, 5>>>>, OMD3, NoMd, "OTU table")
 CT23  == Mk(O2, S3, <<<<2, 1, 0>>, <<1, 1, 3>>>>, OMD2, SMD3, "")
+\* ---- tables for the file formats (inside the C01 domain unless noted)
+MkT(obs, samp, m, omd, smd, type, tid) == [Mk(obs, samp, m, omd, smd, type) EXCEPT !.tid = tid]
+N1(k, kind, v) == <<k, kind, <<v>>>>
+OMDnum == MdRows(<< <<N1("cnt", "i", "3"), N1("flag", "b", "true"), N1("w", "f", "2.5")>>,
+                    <<N1("cnt", "i", "0"), N1("flag", "b", "false"), N1("w", "f", "-0.125")>> >>)
+SMDtxt == MdRows(<< <<S1("k1", "x"), S1("k/2", "p")>>, <<S1("k1", ""), S1("k/2", "q")>>, <<S1("k1", "y"), S1("k/2", "p")>> >>)
+OMDtax == MdRows(<< <<L1("taxonomy", <<"p", "q">>), L1("collapsed_ids", <<"o1">>)>>,
+                    <<L1("taxonomy", <<"p">>), L1("collapsed_ids", <<"o2", "o3">>)>> >>)
+OMDjson == MdRows(<< <<N1("nul", "z", ""), N1("cnt", "i", "3"), <<"nest", "j", <<"[[1, 2], [\"a\"]]">>>>, S1("k1", "x")>>,
+                     <<N1("nul", "z", ""), N1("cnt", "i", "4"), <<"nest", "j", <<"[[], [\"b\", \"c\"]]">>>>, S1("k1", "y")>> >>)
+F23num  == MkT(O2, S3, <<<<3, 1, 0>>, <<0, 5, 6>>>>, OMDnum, SMDtxt, "OTU table", "tid1")
+F23tax  == MkT(O2, S3, <<<<0, 0, 4>>, <<1, 0, 0>>>>, OMDtax, NoMd, "Taxon table", "")
+F23json == MkT(O2, S3, <<<<3, 1, 0>>, <<0, 5, 6>>>>, OMDjson, NoMd, "Gene table", "")
+F11     == MkT(<<"o1">>, <<"s1">>, <<<<7>>>>, NoMd, NoMd, "", "")
+F13     == MkT(<<"o1">>, S3, <<<<0, 2, 9>>>>, MdRows(<< <<L1("taxonomy", <<"q">>)>> >>), NoMd, "Metabolite table", "")
+F31     == MkT(O3, <<"s1">>, <<<<4>>, <<0>>, <<-8>>>>, NoMd, MdRows(<< <<S1("k1", "x")>> >>), "", "tid2")
+F33dense == MkT(O3, S3, <<<<1, 2, 3>>, <<4, 5, 6>>, <<7, 8, 9>>>>, OMD3, SMD3, "Function table", "")
+F22zero == MkT(O2, S2, <<<<0, 0>>, <<0, 0>>>>, NoMd, NoMd, "", "")
+F24frac == [MkT(O2, <<"s1", "s2", "s3", "s4">>, <<<<1, 0, 0, 2>>, <<0, 3, 0, 0>>>>, OMDtax, NoMd, "Ortholog table", "")
+            EXCEPT !.mat = <<<<<<1, 2>>, Zero, Zero, <<-3, 4>>>>, <<Zero, <<5, 8>>, Zero, Zero>>>>]
 =============================================================================
